@@ -311,6 +311,13 @@ func (e *Exec) intrinsic(fn *ssa.Function, args []Value) (Value, bool) {
 	if r, ok := e.ctxIntrinsic(name, args); ok {
 		return r, true
 	}
+	if name == "sync.NewCond" {
+		// a condition variable: a fresh object whose locker is remembered by the engine (see syncIntrinsic)
+		t := fn.Signature.Results().At(0).Type().(*types.Pointer).Elem()
+		p := Ptr{C: e.newCell(zero(t))}
+		e.conds[ptrKey(p)] = &condState{locker: args[0]}
+		return p, true
+	}
 	if r, ok := e.syncIntrinsic(name, args); ok {
 		return r, true
 	}
